@@ -14,8 +14,11 @@
            with the class name, a type path `a.b_pb2.M` evaluates iff its first component was bound by
            an import (else NameError when __mapping__() / Stub(channel) runs).
 
-   Strings are lists of code points (Lib/Str.v).  Tables and literals that exist in the source come
-   from Gen.Facts / Gen.FactsC20 (regenerated from /repo on every run). *)
+   Strings are lists of code points (Lib/Str.v).  The cardinality tables come from Gen.Facts
+   (const.Cardinality, by value) and Gen.FactsC20 (flags -> member, member -> client class, client
+   class -> cardinality: OBSERVED by running the plugin of the repository under test on every run).
+   The string constants of the naming functions are the model's own; Gen.FactsC20 also holds what the
+   real plugin answers on a set of probe paths / routes, and Props/C20.v proves that the model agrees. *)
 From Coq Require Import ZArith List Bool.
 From GV Require Import Lib.Str Gen.Facts Gen.FactsC20.
 Import ListNotations.
@@ -63,6 +66,16 @@ Definition dot : str := [46].
 
 (* ---------------------------------------------------------------------------------------------- *)
 (* module names                                                                                     *)
+
+(* the constants of the naming functions *)
+Definition strip_suffixes : list str :=
+  [[46; 112; 114; 111; 116; 111; 100; 101; 118; 101; 108] (* .protodevel *);
+   [46; 112; 114; 111; 116; 111] (* .proto *)].
+Definition base_replacements : list (Z * Z) := [(45, 95) (* - -> _ *); (47, 46) (* / -> . *)].
+Definition pb2_suffix : str := [95; 112; 98; 50].             (* _pb2 *)
+Definition grpc_suffix : str := [95; 103; 114; 112; 99].      (* _grpc *)
+Definition out_replace : Z * Z := (46, 47).                   (* . -> / *)
+Definition out_suffix : str := [46; 112; 121].                (* .py *)
 
 (* for suffix in [...]: if path.endswith(suffix): return path[:-len(suffix)]   (suffixes non-empty) *)
 Fixpoint strip_first (sufs : list str) (p : str) : str :=
@@ -128,7 +141,7 @@ Fixpoint lookup_last {A} (k : str) (l : list (str * A)) : option A :=
 
 Definition flags_eqb (a b : bool * bool) : bool := Bool.eqb (fst a) (fst b) && Bool.eqb (snd a) (snd b).
 
-(* _CARDINALITY[(client_streaming, server_streaming)]  (a dict literal: last duplicate key wins) *)
+(* _CARDINALITY[(client_streaming, server_streaming)]  (the observed table has one row per flag pair) *)
 Fixpoint lookup_flags (k : bool * bool) (l : list ((bool * bool) * str)) : option str :=
   match l with
   | [] => None
@@ -137,7 +150,7 @@ Fixpoint lookup_flags (k : bool * bool) (l : list ((bool * bool) * str)) : optio
                     | None => if flags_eqb k k' then Some v else None
                     end
   end.
-Definition cardinality_of (cs ss : bool) : option str := lookup_flags (cs, ss) plugin_cardinality.
+Definition cardinality_of (cs ss : bool) : option str := lookup_flags (cs, ss) flags_cardinality.
 
 (* the if/elif chain of render: first branch whose member matches *)
 Definition method_cls (card : str) : option str := assoc_str card render_method_cls.
